@@ -35,7 +35,7 @@ theorem C35_searchI_spec (t : ITree) (hn : NestedI t) (off id : Nat) (h : search
     Innermost off id t ∧ Cand off id t :=
   ⟨searchI_sound off id t hn h, Innermost.cand off id t (searchI_sound off id t hn h)⟩
 
-/-- Without any hypothesis on the tree (the spans the parser hands out are not always nested, see F6 in the
+/-- Without any hypothesis on the tree (the spans the parser hands out are not always nested, see D60 in the
     harness notes): the node returned is *reachable* at the offset — its own span and the spans of all nodes
     above it contain the offset — and no node below it is; and the search answers exactly when some node is
     reachable.  On a properly nested tree "reachable" is "its span contains the offset" (`reach_iff_cand`). -/
